@@ -368,24 +368,64 @@ fn check_expr(i: u64, depth: usize, l: &mut Local) {
     }
 }
 
+/// family I: one integer variable bounded through a row whose coefficient makes the propagated bound
+/// inexact in floating point (a * i REL fl(a * k)): the rounding of the published integer range must
+/// absorb the last-bit error in the sound direction
+const INEXACT_COEFS: [f64; 16] = [0.1, 0.3, 0.7, 0.9, 1.1, 1.9, 2.3, 2.7, 11.5, 1.0 / 3.0, -0.1, -0.3, -0.9, -1.9, -2.7, 3.0];
+fn family_i_size() -> u64 {
+    (INEXACT_COEFS.len() * 9 * 3 * 2 * 2 * 2) as u64
+}
+fn family_i(i: u64) -> Case {
+    use crate::exact::Rel;
+    use rooc::BinOp;
+    let mut d = Digits(i);
+    let second_row = d.pick(2) == 1;
+    let coef_right = d.pick(2) == 1;
+    let side = d.pick(2);
+    let rel = *d.of(&[Rel::Ge, Rel::Le, Rel::Eq]);
+    let k = d.pick(9) as f64 - 4.0;
+    let a = *d.of(&INEXACT_COEFS);
+    let term = if coef_right { bin(BinOp::Mul, var("i"), num(a)) } else { bin(BinOp::Mul, num(a), var("i")) };
+    let rhs = num(a * k);
+    let (lhs, rhs, rel) = if side == 0 {
+        (term, rhs, rel)
+    } else {
+        (rhs, term, match rel { Rel::Ge => Rel::Le, Rel::Le => Rel::Ge, Rel::Eq => Rel::Eq })
+    };
+    let mut cons = vec![SrcCons { lhs, rel, rhs, bare: false, name: "r".into() }];
+    let mut vars = vec![("i".to_string(), Dom::Int(-6, 7))];
+    if second_row {
+        // a second integer tied to the first through another inexact row
+        vars.push(("j".to_string(), Dom::Int(-20, 20)));
+        cons.push(SrcCons { lhs: bin(BinOp::Mul, num(0.7), var("j")), rel: Rel::Ge, rhs: bin(BinOp::Mul, num(2.1), var("i")), bare: false, name: "s".into() });
+    }
+    Case { model: SrcModel { vars, cons, sense: Sense::Satisfy, obj: num(0.0) }, signature: format!("inexact-integer-bound a={a} k={k} rel={:?} side={side} coef_right={coef_right} second_row={second_row}", rel) }
+}
+
 pub fn run(mut run: Run) -> ! {
     crate::core::silence_panics();
     run.isolate = true;
     run.case_timeout_s = 120.0;
     let quick = run.quick();
-    let depth = if quick { 1 } else { 2 };
-    run.rule = format!("(a) every model of the C01 families A (cores x context chains x relations x constants x declaration forms, depth {depth}) and C (bound feeders x consumers) is analysed through the verif_hooks view of the bounds analysis with EVERY step budget 0..K (K = first budget that is not exhausted; each prefix of the propagation work-list is a stopping point), on the raw and on the normalised constraints; every derived variable range, every published domain (integer rounding applied) and the compiled model's domains must contain the exact range of that variable over the source-feasible set, never be NaN, be non-empty unless infeasibility is recorded, and infeasibility may only be recorded for infeasible models; (b) bounds_of for every core-in-context expression over 9 boxes (finite, half-infinite, infinite, degenerate, negative, integer, non-dyadic) must contain the exact range of the piecewise-linear expression; distinct = model / expression text");
+    // quick = chains of <= 2 contexts over the full declaration and constant menus; thorough = chains of <= 3
+    let depth = if quick { 2 } else { 3 };
+    run.rule = format!("(a) every model of the C01 families A (cores x context chains x relations x constants x declaration forms, depth {depth}) C (bound feeders x consumers) and I (an integer variable bounded through a * i REL fl(a * k) for 16 coefficients that are inexact in binary floating point x k in -4..4 x 3 relations x both sides x coefficient left/right, alone or chained to a second integer) is analysed through the verif_hooks view of the bounds analysis with EVERY step budget 0..K (K = first budget that is not exhausted; each prefix of the propagation work-list is a stopping point), on the raw and on the normalised constraints; every derived variable range, every published domain (integer rounding applied) and the compiled model's domains must contain the exact range of that variable over the source-feasible set, never be NaN, be non-empty unless infeasibility is recorded, and infeasibility may only be recorded for infeasible models; (b) bounds_of for every core-in-context expression over 9 boxes (finite, half-infinite, infinite, degenerate, negative, integer, non-dyadic) must contain the exact range of the piecewise-linear expression; distinct = model / expression text");
     run.assume("exact source-feasible ranges from the region partition of one continuous variable (other continuous variables on a rational grid: an inner approximation, sound for this one-sided check); tolerance 1e-9 relative, the analyser's own");
-    let sa = family_a_size(depth, quick);
+    let sa = family_a_size(depth, false);
     run.family("A-models-x-step-budgets", sa, move |i, l| {
-        let c = family_a(i, depth, quick);
+        let c = family_a(i, depth, false);
         check_model(&c, l);
     });
     run.family("C-feeders-x-step-budgets", family_c_size(), |i, l| {
         let c = family_c(i);
         check_model(&c, l);
     });
-    run.family("E-expression-ranges", expr_size(depth), move |i, l| check_expr(i, depth, l));
+    let edepth = depth.min(2);
+    run.family("I-inexact-integer-bounds", family_i_size(), |i, l| {
+        let c = family_i(i);
+        check_model(&c, l);
+    });
+    run.family("E-expression-ranges", expr_size(edepth), move |i, l| check_expr(i, edepth, l));
     for k in ["analyses", "models_checked", "expressions_checked", "source:feasible", "source:infeasible", "compiled"] {
         run.require(k);
     }
